@@ -179,6 +179,13 @@ def usbLine : List String → String
       let head := match r.res with | .ok d => s!"ok {Drv.hex d}" | .error e => usbExc e
       s!"{head} tag={r.rs.last} abort={showOptNat r.abortTag} reqs={showItems r.rs.reqs} sizes={showNats r.rs.sizes} left={r.left.length}"
     | _, _, _, _, _, _, _ => "bad-op"
+  | ["u.host", script] =>           -- the host-side reference of the model (USBTMC 1.0 §3.3)
+    match script? script with
+    | some sc =>
+      match Usbtmc.hostSpec sc [] with
+      | some d => s!"ok {Drv.hex d}"
+      | none => "error"
+    | none => "bad-op"
   | ["u.dev", prev, transfers] =>      -- the reference device decoder of the model (USBTMC 1.0 §3.2)
     match optNat prev, itemList transfers with
     | some p, some ts =>
